@@ -176,7 +176,13 @@ class Monitor:
     def hook_func(self, module, attr, post=None, pre=None, name=None):
         """Hook a module-level function and rebind every alias of it that the
         already-imported orquestra modules hold (``from m import f``)."""
-        orig = getattr(module, attr)
+        orig = getattr(module, attr, None)
+        if orig is None and attr.startswith("_"):
+            # a private helper that this tree does not have (renamed / inlined): nothing to observe there
+            self.notes[f"hook-missing:{name or attr}"] = 1
+            return None
+        if orig is None:
+            raise AttributeError(f"{module.__name__}.{attr}")
         if hasattr(orig, "__rv_orig__"):
             raise RuntimeError(f"{attr} already hooked")
         name = name or f"{module.__name__.split('.')[-1]}.{attr}"
@@ -205,6 +211,9 @@ class Monitor:
             if attr in klass.__dict__:
                 raw = klass.__dict__[attr]
                 break
+        if raw is None and attr.startswith("_") and not attr.startswith("__"):
+            self.notes[f"hook-missing:{name or attr}"] = 1
+            return None
         if raw is None:
             raise AttributeError(f"{cls.__name__}.{attr}")
         name = name or f"{cls.__name__}.{attr}"
@@ -272,7 +281,7 @@ class Reach:
     def watch(self, obj, label, markers=None):
         """Register ``obj`` (function / property / method).  ``markers`` maps a
         branch name to a regex matched against the function's source lines."""
-        code = _code_of(obj)
+        code = _code_of(obj) if obj is not None else None
         if code is None:
             self.labels[("missing", label)] = label
             return
